@@ -27,15 +27,50 @@ func profileFor(name string) *Profile {
 		p.Shadows = []string{"nodust", "moredust"}
 		p.W["dust"] = 16
 	case "C08":
+		p.Checkpoint = []string{"pausequeries"}
+		p.W["checkpoint"] = 3
 		p.Shadows = []string{"pausediff"}
 		p.W["orbadmin"] = 18
 	case "C09":
+		p.Checkpoint = []string{"pausequeries"}
+		p.W["checkpoint"] = 3
 		p.Shadows = []string{"actiondiff"}
 		p.W["orbadmin"] = 18
 	case "C18":
+		p.Checkpoint = []string{"pausequeries"}
+		p.W["checkpoint"] = 2
 		p.Shadows = []string{"limitup"}
 		p.W["orbadmin"] = 14
 		p.PassW = []int{2, 3, 4, 3}
+	case "C13":
+		p.Checkpoint = []string{"queries"}
+		p.W["checkpoint"] = 3
+		p.W["send"], p.W["deliver"] = 40, 40
+		p.W["envadmin"], p.W["byz"] = 1, 0
+		p.ClassW = map[string]int{"canon": 90, "refuse": 3, "free": 2, "plain": 3, "nearmiss": 1, "exotic": 1}
+		p.StepsMin, p.StepsMax = 40, 90
+	case "C17":
+		p.Checkpoint = []string{"genesis"}
+		p.W["checkpoint"] = 2
+		p.W["orbadmin"] = 14
+	case "C10":
+		p.Checkpoint = []string{"impostor"}
+		p.W["checkpoint"] = 3
+		p.W["impostor"] = 8
+		p.W["orbadmin"] = 10
+		p.StepsMin, p.StepsMax = 15, 40
+	case "C20":
+		p.Checkpoint = []string{"ids"}
+		p.W["checkpoint"] = 3
+		p.W["orbadmin"] = 10
+		p.StepsMin, p.StepsMax = 15, 40
+	case "C19":
+		p.Special = specialC19
+		p.TraceCheck = traceCheckC19
+		p.CrossProcess = func(seed uint64) bool { return seed%8 == 0 }
+		p.ClassW = map[string]int{"canon": 30, "refuse": 12, "free": 14, "plain": 6, "nearmiss": 4, "exotic": 6, "multierr": 28}
+		p.W["byz"] = 6
+		p.StoreDigests = false
 	case "C03":
 		p.Special, p.SpecialReplay = specialC03, replayC03
 		p.Own["C14"] = false
